@@ -60,6 +60,41 @@ def read_order(a):
     return a.fail_order if a.op == "cas" else a.order
 
 
+def geometry_rebase(ctx, rule, fb):
+    """a queue function that changes the field the round number is computed from (_slot_bits) stores 0 to every ticket
+    counter on every path through that write to a return (shared: every component that re-sizes its queue relies on it)"""
+    n11 = 0
+    for fn in fb.find(pred=lambda f: is_queue_fn(f) and f.has_cfg() and not f.lambda_):
+        ig = IG(fn, inline=lambda a, b, c: False)
+        live = ig.live_nodes()
+        geo = [n for n in ig.ev_nodes() if n.id in live and n.ev["e"] == "asg" and
+               isinstance(strip_cast(n.ev.get("lhs")), dict) and strip_cast(n.ev["lhs"]).get("n") == "_slot_bits"]
+        if not geo:
+            continue
+        n11 += 1
+        zero = {}
+        for a in A.atomic_ops(ig, live):
+            if a.op == "store" and L.deep_find(ig, a.obj, TICKET_FIELD) is not None:
+                v = strip_cast(ig.rarg(a.node, 0))
+                if const_val(v) == 0:
+                    zero.setdefault(A.obj_field(a.obj)[0], []).append(a.node)
+        tickets = sorted(f["name"] for rn, rec in fb.records().items() if QUEUE_REC.match(rn)
+                         for f in rec.get("fields", []) if re.match(r"^std::atomic<unsigned long>$", f.get("type", "")))
+        tickets = sorted(set(tickets))
+        rets = [n for n in ig.ev_nodes() if n.id in live and n.ev["e"] == "ret" and n.frame.id == 0]
+        for g in geo:
+            for t in tickets:
+                zs = zero.get(t, [])
+                ok = bool(zs) and not (ig.path_exists(ig.entry, g, avoiding=zs, strict=False) and
+                                       any(ig.path_exists(g, r_, avoiding=zs) for r_ in rets))
+                ctx.ob(rule, "%s %s" % (L.short(fn)[:100], t), ok, g.where,
+                       "the round of a ticket is <ticket> >> _slot_bits and rebuilt slots start at round 0: when _slot_bits changes, "
+                       "%s must be stored 0 before the function returns, or no slot ever shows the version the next ticket waits for" % t,
+                       site="%s@%s" % (fn.name, t))
+    ctx.floor(rule, n11, 1, "functions that change the ring geometry")
+
+
+
 def check_concurrent_tickets(ctx, fb, rule, floor=None):
     """every public queue operation that is concurrent by construction (CONCURRENT=true, or the compensating
     batch variants, which claim their own range by fetch_add) must never - on any path through its helpers,
@@ -488,35 +523,7 @@ def run(ctx):
     ctx.floor("C01.R9", n9, 100, "slot accesses and version mappings")
 
     # ---------------------------------------------------------------- R11 a change of ring geometry re-bases both tickets
-    n11 = 0
-    for fn in fb.find(pred=lambda f: is_queue_fn(f) and f.has_cfg() and not f.lambda_):
-        ig = IG(fn, inline=lambda a, b, c: False)
-        live = ig.live_nodes()
-        geo = [n for n in ig.ev_nodes() if n.id in live and n.ev["e"] == "asg" and
-               isinstance(strip_cast(n.ev.get("lhs")), dict) and strip_cast(n.ev["lhs"]).get("n") == "_slot_bits"]
-        if not geo:
-            continue
-        n11 += 1
-        zero = {}
-        for a in A.atomic_ops(ig, live):
-            if a.op == "store" and L.deep_find(ig, a.obj, TICKET_FIELD) is not None:
-                v = strip_cast(ig.rarg(a.node, 0))
-                if const_val(v) == 0:
-                    zero.setdefault(A.obj_field(a.obj)[0], []).append(a.node)
-        tickets = sorted(f["name"] for rn, rec in fb.records().items() if QUEUE_REC.match(rn)
-                         for f in rec.get("fields", []) if re.match(r"^std::atomic<unsigned long>$", f.get("type", "")))
-        tickets = sorted(set(tickets))
-        rets = [n for n in ig.ev_nodes() if n.id in live and n.ev["e"] == "ret" and n.frame.id == 0]
-        for g in geo:
-            for t in tickets:
-                zs = zero.get(t, [])
-                ok = bool(zs) and not (ig.path_exists(ig.entry, g, avoiding=zs, strict=False) and
-                                       any(ig.path_exists(g, r_, avoiding=zs) for r_ in rets))
-                ctx.ob("C01.R11", "%s %s" % (L.short(fn)[:100], t), ok, g.where,
-                       "the round of a ticket is <ticket> >> _slot_bits and rebuilt slots start at round 0: when _slot_bits changes, "
-                       "%s must be stored 0 before the function returns, or no slot ever shows the version the next ticket waits for" % t,
-                       site="%s@%s" % (fn.name, t))
-    ctx.floor("C01.R11", n11, 1, "functions that change the ring geometry")
+    geometry_rebase(ctx, "C01.R11", fb)
 
     # ---------------------------------------------------------------- R10 errno is reset before a wait whose errno is tested
     errno_discipline(ctx, "C01.R10", fb)       # conditional: applies where a wait loop tests errno at all
